@@ -31,7 +31,7 @@ Boundaries ==
   UNION ({Near(0), Near(Q - 1), Near((Q - 1) \div 2), Near(2 ^ 22), Near(2 ^ 12), Near(Q - 2 ^ 12)}
          \cup {Near(k * G1) : k \in 0 .. 88} \cup {Near(k * G2) : k \in 0 .. 32}
          \cup {Near(k * (2 ^ 12)) : k \in {1, 2, 3, 1023, 1024, 1025, 2043, 2044, 2045}})
-Samples == Boundaries \cup {k * Stride + ((k * 7919) % Stride) : k \in 0 .. ((Q - 1) \div Stride) - 1}
+Samples == Boundaries \cup {k * Stride + (((k % Stride) * 7919) % Stride) : k \in 0 .. ((Q - 1) \div Stride) - 1}
 
 Init == \/ r \in Samples /\ s = 0
         \/ r = 0 /\ s \in 1 .. NPoly
